@@ -8,6 +8,7 @@ only clock read), and whether the same object is also written in the other encod
 KVN == XML clause.  The oracle is equality of a canonical description of the object at the
 written precision (DESIGN.md 5.8)."""
 
+import hashlib
 import io
 import re
 
@@ -583,7 +584,7 @@ def run_plan(plan, ctx):
                 f"hop {h}: dumping the {'re-loaded ' if h else ''}{kind.upper()} object as {fmt.upper()} raised {type(exc).__name__}: {exc}",
             )
             return _finish(ctx, sig, plan)
-        ctx.ev("write", h, enc, len(text), fhex(float(len(text))))
+        ctx.ev("write", h, enc, len(text), hashlib.md5(text.encode()).hexdigest()[:16])
         # the encoding really is the one the hop asked for
         ctx.checks += 1
         is_xml = text.lstrip().startswith("<?xml")
@@ -637,7 +638,7 @@ def run_plan(plan, ctx):
         if exc is not None:
             ctx.violate("read-back", dict(fp_base, kind="load_fails", exc=type(exc).__name__), f"hop {h}: the {fmt.upper()} {kind.upper()} message just written cannot be read back: {type(exc).__name__}: {exc}")
             return _finish(ctx, sig, plan)
-        ctx.ev("read", h, got_desc["kind"])
+        ctx.ev("read", h, got_desc["kind"], hashlib.md5(repr(sorted((k, repr(v)) for k, v in got_desc.items())).encode()).hexdigest()[:16])
         ctx.checks += 1
         ctx.probe("hop_compared")
         if h > 0:
